@@ -207,4 +207,31 @@ fn main() {
         let r2 = catch_unwind(AssertUnwindSafe(|| m.encode()));
         match r2 { Ok(b) => { println!("same bytes: {}", a == b); show("S18 first", &a); show("S18 second", &b); }, Err(_) => { println!("second encode PANICKED"); show("S18 first", &a); } }
     });
+    run("S19 parse: crafted inputs must give Ok or Err, never a panic (C03)", || {
+        fn leb(mut n: u32) -> Vec<u8> { let mut v = vec![]; loop { let b = (n & 0x7f) as u8; n >>= 7; if n == 0 { v.push(b); break; } v.push(b | 0x80); } v }
+        fn section(id: u8, body: &[u8]) -> Vec<u8> { let mut v = vec![id]; v.extend(leb(body.len() as u32)); v.extend_from_slice(body); v }
+        fn custom(name: &str, body: &[u8]) -> Vec<u8> { let mut b = leb(name.len() as u32); b.extend_from_slice(name.as_bytes()); b.extend_from_slice(body); section(0, &b) }
+        let hdr: Vec<u8> = vec![0, 0x61, 0x73, 0x6d, 1, 0, 0, 0];
+        // one function `(func)`: type, function, code sections
+        let base: Vec<u8> = [section(1, &[1, 0x60, 0, 0]), section(3, &[1, 0]), section(10, &[1, 2, 0, 0x0b])].concat();
+        // name section, function-names subsection (id 1): one naming (index 7, "x") - index out of range
+        let fn_names = { let m = [leb(1), leb(7), leb(1), b"x".to_vec()].concat(); [vec![1u8], leb(m.len() as u32), m].concat() };
+        // the same subsection with a VALID index (0), but the name section placed BEFORE the code section
+        let fn_names_ok = { let m = [leb(1), leb(0), leb(1), b"x".to_vec()].concat(); [vec![1u8], leb(m.len() as u32), m].concat() };
+        let cases: Vec<(&str, Vec<u8>)> = vec![
+            ("name section names function 7 of 1", [hdr.clone(), base.clone(), custom("name", &fn_names)].concat()),
+            ("VALID module, name section before the code section", [hdr.clone(), section(1, &[1, 0x60, 0, 0]), section(3, &[1, 0]), custom("name", &fn_names_ok), section(10, &[1, 2, 0, 0x0b])].concat()),
+            ("producers section with zero fields", [hdr.clone(), custom("producers", &[0])].concat()),
+            ("tag section with a bad attribute byte", [hdr.clone(), section(1, &[1, 0x60, 0, 0]), section(13, &[1, 9, 0])].concat()),
+            ("more code bodies than declared functions", [hdr.clone(), section(1, &[1, 0x60, 0, 0]), section(3, &[1, 0]), section(10, &[2, 2, 0, 0x0b, 2, 0, 0x0b])].concat()),
+            ("function of an undeclared type", [hdr.clone(), section(3, &[1, 5]), section(10, &[1, 2, 0, 0x0b])].concat()),
+            ("local declarations whose counts sum to more than u32::MAX", [hdr.clone(), section(1, &[1, 0x60, 0, 0]), section(3, &[1, 0]), section(10, &[1, 14, 2, 0xff, 0xff, 0xff, 0xff, 0x0f, 0x7f, 0xff, 0xff, 0xff, 0xff, 0x0f, 0x7f, 0x0b])].concat()),
+            ("function whose type index names an array type", [hdr.clone(), section(1, &[1, 0x5e, 0x7f, 0]), section(3, &[1, 0]), section(10, &[1, 2, 0, 0x0b])].concat()),
+        ];
+        for (what, bytes) in cases {
+            let valid = wasmparser::validate(&bytes).is_ok();
+            let r = catch_unwind(AssertUnwindSafe(|| Module::parse(&bytes, false).map(|_| ())));
+            println!("  {:<55} validates={:<5} parse: {}", what, valid, match r { Ok(Ok(())) => "Ok".to_string(), Ok(Err(e)) => format!("Err({})", e).chars().take(60).collect(), Err(_) => "PANIC".to_string() });
+        }
+    });
 }
